@@ -213,12 +213,13 @@ theorem terminates_no_hang_ut0 {v f c scripts} {ls : List Label} {s : St} (he : 
       omega
   rw [hsum] at this; omega
 
-/-- the timed system never gets stuck: in every state some operation other than a spurious wake-up is
+/-- the timed system never gets stuck: in every state before the return of dsh() some operation other than a spurious wake-up is
     possible — a thread can run, or (only then) a second passes.  With `terminates_with_timeouts`: seconds
     cannot pass for ever, so the run is driven to the return of dsh(). -/
-theorem never_stuck (s : St) : ∃ l, l.spurious = false ∧ (step s l).isSome = true := by
+theorem never_stuck (s : St) (hnf : ¬ Final s) : ∃ l, l.spurious = false ∧ (step s l).isSome = true := by
+  have hnr : s.fan.dpc ≠ .returned := hnf
   cases hq : quiescent s with
-  | true => exact ⟨.tick, rfl, by simp [step, hq]⟩
+  | true => exact ⟨.tick, rfl, by simp [step, hq, hnr]⟩
   | false =>
     have := hq
     simp only [quiescent, List.all_eq_false] at this
@@ -251,7 +252,7 @@ example :
        .fan (.w 1 .connectBegin), .fan (.w 1 .connectEnd), .fan (.w 1 .destroyBegin), .fan (.w 1 .destroyEnd),
        .fan (.w 1 .lock), .fan (.w 1 .signal), .fan (.w 1 .unlock), .fan (.d .lock), .fan (.d .unlock),
        .fan (.d .ret)]
-    (ls.foldlM (fun s l => step s l) (init .whileWait 1 { ct := 1, ut := 1, sopt := false, selfCheck := false } scripts)).map
+    (ls.foldlM (fun s l => step s l) (init .whileWait 1 { ct := 1, ut := 1, sopt := false, selfCheck := false, stopWdog := false } scripts)).map
       (fun s => (s.now, (s.host 0).res, (s.host 1).res, (s.host 1).out.got, s.fan.dpc)) =
       some (2, Res.connTimedOut, Res.done, 3, Fan.DPC.returned) := by
   decide
